@@ -311,7 +311,9 @@ fn run_case(stmts: &[St], model: &mut model::Model, rep: &mut Report, label: &st
             }
             let quote = |n: &str| format!("\"{}\"", n);
             let listed: BTreeSet<String> = after.creg.keys().cloned().chain(after.reg.values().map(|(n, _, _)| n.clone())).collect();
-            for n in &listed {
+            // (probed on clones, so only after statements that can change an index list)
+            let relevant = out.is_ok() && matches!(st, St::CreateIndex(..) | St::DropIndex(_) | St::DropColumn(..) | St::ChangeColumn(..) | St::DropTable(_));
+            for n in listed.iter().filter(|_| relevant) {
                 // DROP INDEX of a listed name succeeds and removes it from both lists
                 let mut probe = Db::from(db.db.clone());
                 probe.keep_log = false;
